@@ -133,6 +133,10 @@ def cases(tier):
             # classes listed in another order than the sorted product, and a matrix with only some of its classes
             out.append({"kind": "matrix", "M": M, "M2": M2, "Rg": Rg, "rows": "shuffled", "_weight": 2})
             out.append({"kind": "matrix", "M": M, "M2": M2, "Rg": Rg, "layout": "range_mean", "rows": "sparse", "_weight": 2})
+            # a further index level (two nodes), rows sorted and in another order (seed C12-7: that branch paired by position)
+            out.append({"kind": "matrix", "M": M, "M2": M2, "Rg": Rg, "extra": True, "_weight": 3})
+            out.append({"kind": "matrix", "M": M, "M2": M2, "Rg": Rg, "extra": True, "rows": "shuffled18", "_weight": 3})
+            out.append({"kind": "matrix", "M": M, "M2": M2, "Rg": Rg, "layout": "range_mean", "extra": True, "rows": "shuffled18", "_weight": 3})
     return out
 
 
@@ -305,8 +309,10 @@ def _run_matrix(ctx, case):
     else:
         fr = pd.IntervalIndex.from_breaks([-2.0, 0.0, 2.0, 4.0], name="from")
         to = pd.IntervalIndex.from_breaks([-2.0, 0.0, 2.0, 4.0], name="to")      # diagonal classes have zero range
-    idx = pd.MultiIndex.from_product([fr, to])
-    rows = {"shuffled": [3, 0, 8, 5, 1, 7, 2, 6, 4], "sparse": [0, 2, 4, 7]}.get(case.get("rows"))
+    extra = bool(case.get("extra"))
+    idx = pd.MultiIndex.from_product([fr, to, pd.Index([7, 3], name="node_id")] if extra else [fr, to])
+    rows = {"shuffled": [3, 0, 8, 5, 1, 7, 2, 6, 4], "sparse": [0, 2, 4, 7],
+            "shuffled18": [11, 3, 0, 16, 8, 5, 13, 1, 7, 17, 2, 10, 6, 14, 4, 9, 15, 12]}.get(case.get("rows"))
     if rows is not None:
         idx = idx[[r for r in rows if r < len(idx)]]       # classes listed in another order / only some classes present
     counts = [ctx.real("n%d" % i) for i in range(len(idx))]
@@ -328,9 +334,14 @@ def _run_matrix(ctx, case):
     # (the plain function and the accessor round differently in the last place, and the largest range *is* the last class
     #  limit: a transformed range within 1e-9 of a class limit may be counted on either side)
     tol = 1e-9 * max(1.0, float(np.max(np.abs(rng_t)))) if len(rng_t) else 0.0
+    node_in = list(lv["node_id"]) if extra else [None] * len(idx)
+    node_out = list(resp.index.get_level_values("node_id")) if extra else [None] * len(resp)
+    if extra:
+        ctx.claim(sorted(set(node_out)) == sorted(set(node_in)), "matrix.class_placement", ("node ids of the result", node_out))
     for j, iv in enumerate(resp.index.get_level_values("range")):
-        sure = [i for i in range(len(idx)) if iv.left + tol < rng_t[i] < iv.right - tol or (iv.left == 0.0 and -tol <= rng_t[i] < iv.right - tol)]
-        maybe = [i for i in range(len(idx)) if iv.left - tol <= rng_t[i] <= iv.right + tol]
+        mine = [i for i in range(len(idx)) if node_in[i] == node_out[j]]
+        sure = [i for i in mine if iv.left + tol < rng_t[i] < iv.right - tol or (iv.left == 0.0 and -tol <= rng_t[i] < iv.right - tol)]
+        maybe = [i for i in mine if iv.left - tol <= rng_t[i] <= iv.right + tol]
         lo = hi = 0
         for i in sure:
             lo = counts[i] + lo
